@@ -126,6 +126,7 @@ func newSchedReadException(w *World, la *lockAnalysis) *schedReadException {
 		if fn.Parent() != nil {
 			continue
 		}
+		la.curFn = fn
 		allInstrs(fn, func(in ssa.Instruction) {
 			if st, ok := in.(*ssa.Store); ok {
 				if key, base, ok := la.rootField(st.Addr); ok && key == "PipelineJob.Start" && !la.fresh(base, nil) && !isNilConst(st.Val) {
@@ -157,6 +158,7 @@ func newSchedReadException(w *World, la *lockAnalysis) *schedReadException {
 	var storers []*ssa.Function
 	for _, fn := range w.ModFuncs {
 		has := false
+		la.curFn = fn
 		allInstrs(fn, func(in ssa.Instruction) {
 			if st, ok := in.(*ssa.Store); ok {
 				if key, base, ok := la.rootField(st.Addr); ok && key == "PipelineJob.sched" && !la.fresh(base, nil) {
